@@ -334,9 +334,23 @@ loop:
 		case sub:
 			state.add(cmd.clientID, cmd.query, cmd.subscription)
 		case pub:
-			if err := state.send(cmd.msg, cmd.events); err != nil {
+			if err := state.send(cmd.msg, cmd.events, s.forget); err != nil {
 				s.Logger.Error("Error querying for events", "err", err)
 			}
+		}
+	}
+}
+
+// forget drops a subscription that the server itself has cancelled from the
+// table Subscribe and Unsubscribe consult, so that the client can subscribe
+// again.
+func (s *Server) forget(clientID, qStr string) {
+	s.mtx.Lock()
+	defer s.mtx.Unlock()
+	if clientSubscriptions, ok := s.subscriptions[clientID]; ok {
+		delete(clientSubscriptions, qStr)
+		if len(clientSubscriptions) == 0 {
+			delete(s.subscriptions, clientID)
 		}
 	}
 }
@@ -403,7 +417,7 @@ func (state *state) removeAll(reason error) {
 	}
 }
 
-func (state *state) send(msg interface{}, events map[string][]string) error {
+func (state *state) send(msg interface{}, events map[string][]string, forget func(clientID, qStr string)) error {
 	var firstErr error
 	for qStr, clientSubscriptions := range state.subscriptions {
 		q := state.queries[qStr].q
@@ -428,6 +442,9 @@ func (state *state) send(msg interface{}, events map[string][]string) error {
 					select {
 					case subscription.out <- NewMessage(msg, events):
 					default:
+						if forget != nil {
+							forget(clientID, qStr)
+						}
 						state.remove(clientID, qStr, ErrOutOfCapacity)
 					}
 				}
